@@ -15,14 +15,16 @@ Hypothesis Hfixed : fixed c = true.
 Variable P : N -> N -> Prop.
 Hypothesis P0 : forall n, P n 0%N.
 
-Definition ok_claim (l : N) (n inc : N) : Prop := if N.eqb n (self c) then (inc <= l)%N else P n inc.
+(* a claim about the node itself is within its counter, or within what P allows (what it announced in
+   an earlier life, when the cluster model lets members restart) *)
+Definition ok_claim (l : N) (n inc : N) : Prop := if N.eqb n (self c) then (inc <= l)%N \/ P n inc else P n inc.
 
 Record bounded (s : nstate) : Prop := mkBd {
   bd_recs : forall n r, In (n, r) (recs s) -> ok_claim (linc s) n (rinc r);
   bd_bq : forall k m, In (k, m) (bq s) -> ok_claim (linc s) (mname m) (minc m) }.
 
 Lemma ok_claim_le l l' n i : (l <= l')%N -> ok_claim l n i -> ok_claim l' n i.
-Proof. unfold ok_claim. destruct (N.eqb n (self c)); [lia | auto]. Qed.
+Proof. unfold ok_claim. destruct (N.eqb n (self c)); [intros L [H|H]; [left; lia | right; exact H] | auto]. Qed.
 
 Lemma In_aset {A} k (v : A) k0 v0 l : In (k, v) (aset k0 v0 l) -> (k, v) = (k0, v0) \/ In (k, v) l.
 Proof.
@@ -71,10 +73,10 @@ Proof.
   apply bounded_set_bq.
   - constructor; cbn [recs bq linc].
     + intros n r Hin. apply In_aset in Hin. destruct Hin as [E|Hin].
-      * inversion E; subst. unfold ok_claim. rewrite N.eqb_refl. cbn. lia.
+      * inversion E; subst. unfold ok_claim. rewrite N.eqb_refl. left. cbn. lia.
       * eapply ok_claim_le; [|eapply H1; exact Hin]. lia.
     + intros k m Hin. eapply ok_claim_le; [|eapply H2; exact Hin]. lia.
-  - cbn [linc mname minc]. unfold ok_claim. rewrite N.eqb_refl. lia.
+  - cbn [linc mname minc]. unfold ok_claim. rewrite N.eqb_refl. left. lia.
 Qed.
 
 (* ---------- deadNode ---------- *)
@@ -164,7 +166,7 @@ Proof.
     apply Apply; [|reflexivity].
     destruct Hb as [H1 H2]. constructor; cbn [recs bq linc].
     + intros n r Hin. apply in_app_or in Hin. destruct Hin as [Hin|[E|[]]]; [apply H1; exact Hin|].
-      inversion E; subst. unfold new_rec, ok_claim; cbn [rinc]. destruct (N.eqb n (self c)); [lia | apply P0].
+      inversion E; subst. unfold new_rec, ok_claim; cbn [rinc]. destruct (N.eqb n (self c)); [left; lia | apply P0].
     + exact H2.
 Qed.
 
@@ -227,7 +229,7 @@ Proof.
   - apply bounded_fire_due; [split; [exact HF | exact HB] | exact Hb].
   - split; [apply bounded_reap; exact Hb | cbn; lia].
   - split; [apply (bounded_frame s); auto; cbn; lia | cbn; lia].
-  - apply bounded_dead; [exact Hb | unfold ok_claim; rewrite N.eqb_refl; exact Hc | exact Hop | exact B1].
+  - apply bounded_dead; [exact Hb | unfold ok_claim; rewrite N.eqb_refl; left; exact Hc | exact Hop | exact B1].
   - assert (El : linc (bump_linc s) = (linc s + 1)%N).
     { unfold bump_linc; cbn [linc]. unfold below_max, two32 in *. rewrite N.mod_small by lia. reflexivity. }
     cbn [fst]. split; [apply (bounded_frame s); auto; rewrite El; lia | rewrite El; lia].
